@@ -192,8 +192,11 @@ class Driver17(Driver):
         times = []
         escaped = []
         run_result = None
+        runs = []
         for o in self.sc["ops"]:
-            if o[0] == "run":
+            if o[0] in ("run", "background"):
+                # one run of the timeline's life: in the foreground (the exception, if any, reaches this caller) or on the thread
+                # background() creates (joined before the life goes on; what leaves run() there goes to threading.excepthook)
                 dev = self.dev
                 ticks = [[]]
                 budget = o[1]
@@ -205,15 +208,65 @@ class Driver17(Driver):
                     ticks.append([])
                     dev.calls = ticks[-1]
                 dev.tick = dev_tick
-                try:
-                    self.tl.run(stop_when_done=True)
-                    how = "returned"
-                except Budget:
-                    how = "budget"
-                except Exception as e:
-                    how = "exc:" + type(e).__name__
-                run_result = {"ticks": ticks, "how": how, "now_ticks": self.tl.current_time * self.sc["tpb"],
-                              "n_tracks": len(self.tl.tracks)}
+                if o[0] == "run":
+                    try:
+                        self.tl.run(stop_when_done=True)
+                        how = "returned"
+                    except Budget:
+                        how = "budget"
+                    except Exception as e:
+                        how = "exc:" + type(e).__name__
+                else:
+                    import threading
+                    left = []
+                    saved_hook = threading.excepthook
+                    threading.excepthook = lambda a: left.append(a.exc_type)
+                    before = set(threading.enumerate())
+                    self.tl.stop_when_done = True
+                    try:
+                        self.tl.background()
+                        for t in threading.enumerate():
+                            if t not in before:
+                                t.join(30)
+                                if t.is_alive():
+                                    left.append(Budget)
+                    finally:
+                        threading.excepthook = saved_hook
+                    how = "returned" if not left else ("budget" if left[0] is Budget else "exc:" + left[0].__name__)
+                del dev.tick
+                dev.calls = []
+                result = {"mode": o[0], "ticks": ticks, "how": how, "now_ticks": self.tl.current_time * self.sc["tpb"],
+                          "n_tracks": len(self.tl.tracks), "ids": self.ids()}
+                runs.append(result)
+                if run_result is None:
+                    run_result = result
+                continue
+            if o[0] == "hand_run":
+                # the same run made by hand: tick() until it raises - what run() must turn into "returned" / a raised exception
+                self.tl.stop_when_done = True
+                ticks, how = [], "budget"
+                for _ in range(o[1]):
+                    self.dev.calls = []
+                    try:
+                        self.tl.tick()
+                        ticks.append(self.dev.calls)
+                    except StopIteration:
+                        ticks.append(self.dev.calls); how = "returned"; break
+                    except Exception as e:
+                        ticks.append(self.dev.calls); how = "exc:" + type(e).__name__; break
+                self.dev.calls = []
+                result = {"mode": "hand", "ticks": ticks, "how": how, "now_ticks": self.tl.current_time * self.sc["tpb"],
+                          "n_tracks": len(self.tl.tracks), "ids": self.ids()}
+                runs.append(result)
+                if run_result is None:
+                    run_result = result
+                continue
+            if o[0] == "stop":
+                self.tl.stop()
+                self.dev.calls = []          # OutputDevice.all_notes_off(): 16 x 128 note-offs on the device, not part of any run
+                continue
+            if o[0] == "reset":
+                self.tl.reset()
                 continue
             reps = o[1] if o[0] == "tick" else 1
             for _ in range(reps):
@@ -240,6 +293,7 @@ class Driver17(Driver):
         out = {"obs": sparse, "now_ticks": self.tl.current_time * self.sc["tpb"], "times": times, "escaped": escaped}
         if run_result is not None:
             out["run"] = run_result
+            out["runs"] = runs
         return out
 
 
